@@ -58,6 +58,14 @@ theorem tie_q_fallbackIsDefault : C19.qFallbackIsDefault = true := by decide
 /-- the feature gates the model assumes off are off by default -/
 theorem tie_q_gatesOff : C19.qGatesOff = true := by decide
 
+/-- extension 7: the charge path (19 functions: core OnPodAdd / OnPodUpdate / OnPodDelete / ReservePod / UnreservePod / MigratePod and
+    their ledger helpers, the plugin's pod handlers, Reserve / Unreserve, the migration tick, the resolution) never reads a pod's
+    `.Phase` directly (klog arguments aside); its only phase input is util.IsPodTerminated (call 6 in the sequences above), which
+    names exactly Succeeded and Failed.  So the model's `term` token is the whole phase dependence: "", Pending, Running (and
+    Unknown) are one class - what the quota harness varies for bound pods. -/
+theorem tie_q_phase_only_through_terminated : C19.qPhaseReads = 0 ∧
+    C19.qTerminatedPhases = ["PodFailed", "PodSucceeded"] := by decide
+
 /-! ### ext2: reserve-pod merge order (Model/C19Boot.lean `reservePodAnnots`) and start-up registrations -/
 
 /-- NewReservePod: the template's ObjectMeta is copied FIRST, then the object's own labels and annotations are written
